@@ -2398,3 +2398,79 @@ def status_command_witness(ctx):
         if out["raised"]:
             diffs.append(f"`gwf status -f {fmt}` on an empty selection ends with {out['raised']}")
     return n, diffs, None
+
+
+# --------------------------------------------------------------------------- Workflow.target / target_from_template on a symbolic workflow
+def eval_workflow_api(ctx):
+    """Workflow.target, target_from_template (with and without its own working_dir), duplicate names; Target construction is recorded, not run."""
+    idx = ctx.index
+    wcls = idx.cls("gwf.workflow:Workflow")
+    made = []
+
+    def construct(cls, args, kwargs):
+        if cls.name == "Target":
+            t = Obj("target", **dict(kwargs))
+            if args:
+                t._positional = args
+            made.append(t)
+            return t
+        return NotImplemented
+
+    interp = PureInterp(ctx, hooks={"construct": construct})
+    interp.max_depth = 10
+    wf = Obj("workflow", name="wf", working_dir="/wfdir", defaults={"cores": 2, "memory": "1g", "queue": "normal"}, targets={}, **{"__class__": wcls})
+    out = {}
+
+    def call(meth, *a, **k):
+        try:
+            return interp.call(idx.method(wcls, meth), a, k, self_obj=wf)
+        except Raised as exc:
+            return f"raise {exc.kind}"
+        except Unsupported as exc:
+            return f"<unsupported: {exc}>"
+
+    t1 = call("target", "T1", ["in"], ["out"], cores=8)
+    out["target"] = t1
+    tmpl = Obj("template", inputs=["ti"], outputs=["to"], options={"memory": "4g", "cores": 4}, working_dir=None, spec="SPEC", protect=set(), group="g")
+    out["from_template"] = call("target_from_template", "T2", tmpl, cores=16)
+    tmpl_wd = Obj("template", inputs=["ti"], outputs=["to2"], options={}, working_dir="/elsewhere", spec="SPEC", protect=set(), group="g")
+    out["from_template_wd"] = call("target_from_template", "T3", tmpl_wd)
+    out["duplicate"] = call("target", "T1", [], ["other"])
+    out["duplicate_template"] = call("target_from_template", "T2", tmpl)
+    out["registered"] = {k: v for k, v in wf.targets.items()}
+    return out
+
+
+def workflow_api_witness(ctx):
+    out = eval_workflow_api(ctx)
+    for v in out.values():
+        if isinstance(v, str) and v.startswith("<unsupported"):
+            return 0, [], v
+    diffs = []
+
+    def attrs(t):
+        return t.__dict__["_attrs"] if isinstance(t, Obj) else {}
+    t1, t2, t3 = out["target"], out["from_template"], out["from_template_wd"]
+    a1 = attrs(t1)
+    if not isinstance(t1, Obj) or a1.get("name") != "T1" or a1.get("working_dir") != "/wfdir":
+        diffs.append(f"Workflow.target('T1', ...) in a workflow rooted at /wfdir gives {t1 if not isinstance(t1, Obj) else {k: a1.get(k) for k in ('name', 'working_dir')}}; the target must resolve its paths against the workflow's directory")
+    elif dict(a1.get("options") or {}) != {"cores": 8, "memory": "1g", "queue": "normal"}:
+        diffs.append(f"Workflow.target(cores=8) over workflow defaults cores=2, memory=1g, queue=normal resolves options to {dict(a1.get('options') or {})}; per-target arguments override workflow defaults")
+    a2 = attrs(t2)
+    if not isinstance(t2, Obj) or a2.get("working_dir") != "/wfdir":
+        diffs.append(f"a target made from a template without its own working_dir gets working_dir={a2.get('working_dir')!r}, expected the workflow's /wfdir")
+    elif dict(a2.get("options") or {}) != {"cores": 16, "memory": "4g", "queue": "normal"}:
+        diffs.append(f"target_from_template(cores=16) with template options memory=4g, cores=4 over workflow defaults resolves to {dict(a2.get('options') or {})}; "
+                     "precedence is workflow default < template < per-target argument")
+    elif a2.get("inputs") != ["ti"] or a2.get("outputs") != ["to"] or a2.get("spec") != "SPEC":
+        diffs.append("a target made from a template does not take the template's inputs, outputs and spec")
+    a3 = attrs(t3)
+    if not isinstance(t3, Obj) or a3.get("working_dir") != "/elsewhere":
+        diffs.append(f"a template with its own working_dir=/elsewhere gives a target with working_dir={a3.get('working_dir')!r}")
+    reg = out["registered"]
+    if set(reg) != {"T1", "T2", "T3"} or reg.get("T1") is not t1 or reg.get("T2") is not t2:
+        diffs.append(f"after defining T1, T2, T3 the workflow's targets are {sorted(reg)} (each name must map to the target that was returned)")
+    for k, label in (("duplicate", "Workflow.target"), ("duplicate_template", "Workflow.target_from_template")):
+        if out[k] != "raise WorkflowError":
+            diffs.append(f"{label} with a name that already exists gives {out[k] if isinstance(out[k], str) else 'a second target'}; expected WorkflowError (target names must be unique)")
+    return 5, diffs, None
